@@ -67,7 +67,9 @@ class C20(Cfg):
         tainted = set()           # peers that ever had a dead channel
         peer_of_ch = {}
         ever = {}                 # peer -> rooms ever requested
-        for op, out in zip(ops[1:], outs[1:]):
+        arrival = {}              # (peer, room) -> op index at which the room became pending
+        overtaken = {}            # (peer, room) -> grants of room to later arrivals meanwhile
+        for opi, (op, out) in enumerate(zip(ops[1:], outs[1:])):
             k, a = kv(op)
             grants = []
             if out.startswith("grants "):
@@ -83,6 +85,7 @@ class C20(Cfg):
                 if ch in dead: tainted.add(p)
                 pending.setdefault(p, set()).update(rooms)
                 ever.setdefault(p, set()).update(rooms)
+                for r in rooms: arrival.setdefault((p, r), opi)
             elif k == "unlock":
                 r = int(a["r"])
                 if r in held:
@@ -107,6 +110,17 @@ class C20(Cfg):
                     res.append(("unrequested", "room %d granted to ch %d which never requested it" % (r, c)))
                 elif p is not None:
                     pending[p].discard(r)
+                    mine = arrival.pop((p, r), opi)
+                    overtaken.pop((p, r), None)
+                    # fairness: a peer that asked for r EARLIER, still waits (live receiver) and sees r go to a later arrival
+                    for p2, rs in pending.items():
+                        if p2 != p and r in rs and p2 not in tainted and chan_of.get(p2) not in dead \
+                                and arrival.get((p2, r), opi) < mine:
+                            overtaken[(p2, r)] = overtaken.get((p2, r), 0) + 1
+                            if overtaken[(p2, r)] >= 3:
+                                res.append(("overtaken-by-later-arrivals",
+                                            "peer %d has waited for room %d since op %d and saw it granted %d times to peers that asked later" % (
+                                                p2, r, arrival[(p2, r)], overtaken[(p2, r)])))
             if len(held) > mx: res.append(("bounded", "%d rooms held, limit %d" % (len(held), mx)))
             if wanted_free is not None and not grants:
                 res.append(("progress", "unlock of room %d wanted by a live peer granted nothing" % wanted_free))
